@@ -359,17 +359,18 @@ theorem readEntries_congr {m m' : Mem} : ∀ (n p : Nat), (∀ i, p ≤ i → i 
     · intro i h1 h2; exact h i (by omega) (by rw [Nat.mul_succ]; omega)
     · intro i h1 h2; exact h i h1 (by rw [Nat.mul_succ]; omega)
 
-theorem readEntries_writeEntries : ∀ (t : Table) (m : Mem) (p : Nat),
+/-- the first `len t` slots read back `t`, whatever is written behind them -/
+theorem readEntries_writeEntries : ∀ (t z : Table) (m : Mem) (p : Nat),
     (∀ e ∈ t, e.1 < 256 ^ offWidth ∧ e.2 < 256 ^ lenWidth) →
-      readEntries (writeEntries m p t) p t.length = t
-  | [], _, _, _ => rfl
-  | e :: r, m, p, h => by
-    simp only [writeEntries, List.length_cons, readEntries]
+      readEntries (writeEntries m p (t ++ z)) p t.length = t
+  | [], _, _, _, _ => rfl
+  | e :: r, z, m, p, h => by
+    simp only [List.cons_append, writeEntries, List.length_cons, readEntries]
     have he := h e (List.mem_cons_self ..)
-    rw [readEntries_writeEntries r _ _ (fun x hx => h x (List.mem_cons_of_mem _ hx))]
+    rw [readEntries_writeEntries r z _ _ (fun x hx => h x (List.mem_cons_of_mem _ hx))]
     rw [readEntry_congr (m' := writeEntry m p e), readEntry_writeEntry m p e he.1 he.2]
     intro i h1 h2
-    exact writeEntries_outside r _ _ _ (Or.inl h2)
+    exact writeEntries_outside (r ++ z) _ _ _ (Or.inl h2)
 
 theorem count_before_table : countOffset + countWidth ≤ tableBase := by decide
 
@@ -380,7 +381,7 @@ theorem readCount_writeAllocs (m : Mem) (t : Table) : readCount (writeAllocs m t
     rw [leBytes_length] at this
     rw [this, leVal_leBytes]
   · intro i h1 h2
-    exact writeEntries_outside t _ _ _ (Or.inl (by have := count_before_table; omega))
+    exact writeEntries_outside (t ++ trailingSlots) _ _ _ (Or.inl (by have := count_before_table; omega))
 
 /-- `_read_allocs(_write_allocs(t)) = t` -/
 theorem readAllocs_writeAllocs (m : Mem) (t : Table) (hc : t.length < 256 ^ countWidth)
@@ -388,24 +389,33 @@ theorem readAllocs_writeAllocs (m : Mem) (t : Table) (hc : t.length < 256 ^ coun
   unfold readAllocs
   rw [readCount_writeAllocs, Nat.mod_eq_of_lt hc]
   unfold writeAllocs
-  exact readEntries_writeEntries t _ _ he
+  exact readEntries_writeEntries t trailingSlots _ _ he
 
-/-- `_write_allocs` changes the count field and `[24, 24 + 16·len)` only -/
+theorem trailingSlots_length : trailingSlots.length = writeTrailingSlots := List.length_replicate ..
+
+/-- **extent of `_write_allocs`**: the count field and `[tableBase, tableBase + entrySize·(len + trailing slots))`, nothing else -/
 theorem writeAllocs_outside (m : Mem) (t : Table) (i : Nat)
-    (h1 : i < countOffset ∨ countOffset + countWidth ≤ i) (h2 : i < tableBase ∨ tableBase + entrySize * t.length ≤ i) :
+    (h1 : i < countOffset ∨ countOffset + countWidth ≤ i)
+    (h2 : i < tableBase ∨ tableBase + entrySize * (t.length + writeTrailingSlots) ≤ i) :
     writeAllocs m t i = m i := by
   unfold writeAllocs
-  rw [writeEntries_outside t _ _ _ h2]
+  rw [writeEntries_outside (t ++ trailingSlots) _ _ _ (by rw [List.length_append, trailingSlots_length]; exact h2)]
   apply writeAt_outside
   rw [leBytes_length]; exact h1
 
+/-- `MAX_ALLOCS` entries end inside the header (what `_read_allocs` can reach) -/
 theorem table_fits : tableBase + entrySize * maxAllocs ≤ headerSize := by decide
+
+/-- **header / data disjointness over the extracted layout**: the farthest byte `_write_allocs` can reach with a full
+    table — `MAX_ALLOCS` entries *plus every trailing slot it writes* — is still below the data offset -/
+theorem write_extent_fits : tableBase + entrySize * (maxAllocs + writeTrailingSlots) ≤ headerSize := by decide
 
 theorem writeAllocs_data (m : Mem) (t : Table) (i : Nat) (hl : t.length ≤ maxAllocs) (hi : headerSize ≤ i) :
     writeAllocs m t i = m i := by
-  have := table_fits
+  have := write_extent_fits
   have := count_before_table
-  have : entrySize * t.length ≤ entrySize * maxAllocs := Nat.mul_le_mul_left _ hl
+  have : entrySize * (t.length + writeTrailingSlots) ≤ entrySize * (maxAllocs + writeTrailingSlots) :=
+    Nat.mul_le_mul_left _ (by omega)
   apply writeAllocs_outside <;> omega
 
 theorem readCount_congr {m m' : Mem} (h : ∀ i, i < headerSize → m i = m' i) : readCount m = readCount m' := by
